@@ -81,6 +81,9 @@ def main():
             result["error"] = "/repo working tree is not clean: " + st
             return finish(result, seed, name, meta, demo_src)
         runs = {}
+        ev_backup = "/tmp/seedeval-evidence-%d" % os.getpid()
+        shutil.rmtree(ev_backup, ignore_errors=True)
+        shutil.copytree("/verif/evidence", ev_backup)  # evidence written against a mutated /repo must not stay
         try:
             code, out = sh(["git", "-C", "/repo", "apply", patch], "/repo")
             for c in checks:
@@ -93,6 +96,9 @@ def main():
             sh(["git", "-C", "/repo", "checkout", "--", "."], "/repo")
             sh(["git", "-C", "/repo", "clean", "-fd", "-q"], "/repo")
             shutil.rmtree("/verif/replays", ignore_errors=True)
+            shutil.rmtree("/verif/evidence", ignore_errors=True)
+            shutil.copytree(ev_backup, "/verif/evidence")
+            shutil.rmtree(ev_backup, ignore_errors=True)
         result["checks"] = runs
         return finish(result, seed, name, meta, demo_src)
     finally:
